@@ -322,7 +322,7 @@ DoMerge(e) ==
            /\ tables' = tables /\ held' = <<>> /\ pc' = "loop" /\ exitRes' = exitRes
         ELSE
            \* the next-answer strand: positive literal and non-trivial answer substitution
-           /\ (e.next # <<>>) = (lit.pos /\ ~ans.trivsub)
+           /\ (e.next # <<>>) = (lit.pos /\ (~ans.trivsub \/ ans.del # <<>>))   \* a conditional answer may be followed by a better one
            /\ e.next # <<>> => Shape(e.next[1]) = Shape([s EXCEPT !.selA = s.selA + 1])
            /\ LET tb1 == IF e.next # <<>> THEN Enq(tables, TopT, e.next[1]) ELSE tables IN
               IF lit.pos THEN
